@@ -113,12 +113,24 @@ end
 
 /-! ### array recursion test (`d_array::recursion_test`) -/
 
-/-- does array `target` occur (transitively) inside the list `xs`? -/
+/-- does array `target` occur (transitively) inside the list `xs`? (arrays only) -/
 def reaches (h : List (List Val)) : Nat → Nat → List Val → Bool
   | 0, _, _ => true
   | f + 1, target, xs =>
     xs.any (fun v => match v with
       | .ref j => j == target || reaches h f target (h.getD j [])
+      | _ => false)
+
+/-- `data::reaches`: can the container `target` (`isMap` tells which kind) be reached from the values
+    `xs` by following arrays *and* hash maps (keys and values)? -/
+def reachesC (h : List (List Val)) (maps : List (List (Val × Val))) : Nat → Bool → Nat → List Val → Bool
+  | 0, _, _, _ => true
+  | f + 1, isMap, target, xs =>
+    xs.any (fun v => match v with
+      | .ref j => (!isMap && j == target) || reachesC h maps f isMap target (h.getD j [])
+      | .mapref j =>
+        (isMap && j == target) ||
+          reachesC h maps f isMap target ((maps.getD j []).flatMap (fun e => [e.1, e.2]))
       | _ => false)
 
 /-- `value::operator==`: two empty values are equal, otherwise `data::equals` (case sensitive) -/
@@ -426,9 +438,11 @@ def copyDeep : Nat → M → List Val → M × Nat
 
 /-- would storing `v` in array `id` make `id` contain itself? (`recursion_test`: follows arrays only) -/
 def wouldCycle (m : M) (id : Nat) (v : Val) : Bool :=
-  match v with
-  | .ref j => j == id || reaches m.heap (m.heap.length + 1) id (m.arr j)
-  | _ => false
+  reachesC m.heap m.maps (m.heap.length + m.maps.length + 1) false id [v]
+
+/-- would storing `v` in hash map `id` make the map contain itself? -/
+def wouldCycleMap (m : M) (id : Nat) (v : Val) : Bool :=
+  reachesC m.heap m.maps (m.heap.length + m.maps.length + 1) true id [v]
 
 def truncInt (d : Dec) : Int := Dec.trunc d
 
@@ -459,6 +473,8 @@ def bop_set (l r : Val) (m : M) : Option OpRes :=
       let (m1, key) : M × Val := match nth ps 0 with
         | .ref k => let (mm, nid) := copyDeep (m.heap.length + 1) m (m.arr k); (mm, .ref nid)
         | k => (m, k)
+      if wouldCycleMap m1 id key || wouldCycleMap m1 id (nth ps 1) then pure' (m1.log Diag.runtime_ArrayRecursion) .nil
+      else
       let kv := m1.map id
       let kv' := if kv.any (fun e => valueEq m1.heap e.1 key) then kv.map (fun e => if valueEq m1.heap e.1 key then (e.1, nth ps 1) else e)
                  else kv ++ [(key, nth ps 1)]
